@@ -234,25 +234,25 @@ def loop_shape(ck, ctx):
         ok2, _ = Q.gated(cfg, p, flag_edges)
         ck.ob("loop-shape", "internal-panic-guard#%d" % i, ok1 and ok2, "the internal-error panic is reachable only when nothing runs and no progress was made", span=b.loc, fn=b.nname)
     ck.extra["explicit_panics_in_run"] = len(panics)
-    # early exits of the outer loop other than the loop test / returns: the break under tasks_failed > 0
-    if outer is not None:
-        loop = cfg.natural_loop(outer)
-        exits = [(x, lab, y) for x in loop for y, lab in cfg.succ[x] if y not in loop]
-        brks = []
-        for x, lab, y in exits:
-            if x == outer or (unf and x == [s for s, _ in cfg.succ[unf[0][0]]][0] if False else False):
-                continue
-            rr = cfg.reach_avoid([y])
-            if any(b.blocks[z]["term"] and b.blocks[z]["term"]["k"] == "call" and callee_of(b.blocks[z]["term"]) == "signal::was_interrupted" for z in rr) and x != outer:
-                # leaves to the normal epilogue: either the loop test's false edge or a break
-                t_ = b.blocks[x]["term"]
-                if t_["k"] == "switch":
-                    e = strip(R.discr(x))
-                    if e[0] == "call" and e[1] == "work::BuildStates::unfinished":
-                        continue
-                    brks.append((x, lab, e))
-        okb = all(e[0] == "bin" and e[1] == "Gt" and e[3] == ("const", 0) for _, _, e in brks) and all(Q.gated(cfg, x, not_running)[0] and Q.gated(cfg, x, flag_edges)[0] for x, _, _ in brks)
-        ck.ob("loop-shape", "break-only-after-failure", okb and len(brks) <= 1, "the only early exit to the normal epilogue is `tasks_failed > 0` with nothing running and no progress (%s)" % [(x, show(e, 2)) for x, _, e in brks], span=b.loc, fn=b.nname)
+    # the normal epilogue (computed return value) is reached only through the loop test's false edge or
+    # through `tasks_failed > 0` tested when nothing runs and no progress was made
+    finals = []
+    for bbr, s_ in Q.ret_assignments(b):
+        if "rv" in s_ and s_["rv"]["k"] == "agg" and s_["rv"]["variant"] == "Ok":
+            if R.agg_op(bbr, s_, 0)[0] != "const":
+                finals.append(bbr)
+    G = set()
+    brks = []
+    for sbb, st, e in Q.switches(ctx, b):
+        e_ = strip(e)
+        tl, fl = Q.bool_edges(st)
+        if e_[0] == "call" and e_[1] == "work::BuildStates::unfinished":
+            G.add((sbb, fl))
+        elif e_[0] == "bin" and e_[1] == "Gt" and e_[3] == ("const", 0) and Q.gated(cfg, sbb, not_running)[0] and Q.gated(cfg, sbb, flag_edges)[0]:
+            G.add((sbb, tl))
+            brks.append(sbb)
+    okb = bool(finals) and all(Q.gated(cfg, f, G)[0] for f in finals)
+    ck.ob("loop-shape", "break-only-after-failure", okb, "the normal epilogue is reached only when unfinished() is false, or by `tasks_failed > 0` with nothing running and no progress (break tests %s)" % brks, span=b.loc, fn=b.nname)
 
 
 def worker_reports(ck, ctx):
@@ -280,7 +280,7 @@ def worker_reports(ck, ctx):
     for x, t, scrut, adt, vmap in Q.enum_switches(ctx, wb):
         if adt == "task::Message":
             r = wcfg.reach_avoid(wcfg.edge_targets(x, vmap.get("Done")), avoid_blocks=[wcfg.enclosing_loop_header(x)])
-            okw = bool(set(wcfg.returns()) & r)
+            okw = okw or bool(set(wcfg.returns()) & r)
     ck.ob("worker-reports", "wait-returns-on-done", okw, "Runner::wait returns when it receives Message::Done", span=wb.loc, fn=wb.nname)
 
 
